@@ -754,11 +754,9 @@ pub fn check_worker_burst(case: &BurstCase) -> CaseResult {
     let overlapping = case.overlapping_flush && !case.cancelled_flush;
     let sink_a = sink.clone();
     let sink_b = sink.clone();
-    let mut flush_a = None;
     if overlapping {
-        let mut f = Box::pin(sink_a.flush());
-        let _ = crate::bq::poll_once(f.as_mut());
-        flush_a = Some(f);
+        let mut fa = Box::pin(sink_a.flush());
+        let _ = crate::bq::poll_once(fa.as_mut());
         for j in 0..5u32 {
             let i = In { word: 2, n: 1, total: 2000 + j, last: j, lat_ms: 9, dist: 4 };
             sink.send(i.item().close());
@@ -769,12 +767,18 @@ pub fn check_worker_burst(case: &BurstCase) -> CaseResult {
         let mut fb = Box::pin(sink_b.flush());
         let _ = crate::bq::poll_once(fb.as_mut());
         hold.store(false, Ordering::SeqCst);
-        let done = no_panic("worker-overlapping-flushes", || crate::bq::block_on_timeout(fb, Duration::from_secs(30)))?;
-        if done.is_none() {
+        // both requests are awaited, each by its own thread (a caller of A keeps polling A)
+        let done_b = std::thread::scope(|s| {
+            let ha = s.spawn(move || crate::bq::block_on_timeout(fa, Duration::from_secs(30)).is_some());
+            let b = crate::bq::block_on_timeout(fb, Duration::from_secs(30)).is_some();
+            // B's completion is the barrier for everything sent before B was requested
+            let got = out.out.lock().unwrap().clone();
+            let a = ha.join().unwrap_or(false);
+            (a && b).then_some(got)
+        });
+        let Some(got) = done_b else {
             return Ok(vec!["inconclusive-timeout"]);
-        }
-        // B's completion is the barrier for everything sent before B was requested
-        let got = out.out.lock().unwrap().clone();
+        };
         let mut emitted: BTreeMap<(String, u8), usize> = BTreeMap::new();
         for (_, a) in &got {
             *emitted.entry((a.word.clone().unwrap_or_default(), a.n.unwrap_or(255) as u8)).or_default() += expand(&a.lat).len();
@@ -790,11 +794,6 @@ pub fn check_worker_burst(case: &BurstCase) -> CaseResult {
         }
     }
     hold.store(false, Ordering::SeqCst);
-    if let Some(f) = flush_a {
-        if crate::bq::block_on_timeout(f, Duration::from_secs(30)).is_none() {
-            return Ok(vec!["inconclusive-timeout"]);
-        }
-    }
     if case.cancelled_flush {
         // the worker serves the abandoned request; whatever is sent afterwards still counts
         std::thread::sleep(Duration::from_millis(2));
